@@ -6,7 +6,7 @@
    length, in binary32 and binary64.  Statement only; proof in Proofs/DirichletFl.v.                                              *)
 From Coq Require Import ZArith Bool Reals List.
 From Flocq Require Import Core.Core IEEE754.BinarySingleNaN.
-From RD Require Import Proofs.BetaFinalFl Proofs.DirichletFl.
+From RD Require Import Proofs.BetaFinalFl Proofs.DirichletFl Proofs.AffineFl Proofs.DirichletSumFl.
 Import ListNotations.
 Open Scope R_scope.
 
@@ -30,6 +30,27 @@ Example C11_sticks_fl_binary64 : forall betas : list (binary_float 53 1024), For
   Forall (in_unit 53 1024) (sticks_fl 53 1024 eq_refl eq_refl (@Bone 53 1024 eq_refl eq_refl) betas).
 Proof. intros betas H. apply (C11_dirichlet_sticks_fl 53 1024 eq_refl eq_refl betas H). Qed.
 
+(* "summing to 1 within a few ulp": the REAL sum of the float components is within len * (2u + 3 eta) of 1, any length *)
+Theorem C11_sumR_def : forall prec emax (x : binary_float prec emax) l,
+  sumR prec emax [] = 0 /\ sumR prec emax (x :: l) = B2R x + sumR prec emax l.
+Proof. intros. split; reflexivity. Qed.
+
+Theorem C11_dirichlet_sum_fl : forall prec emax (Hp : Prec_gt_0 prec) (Hpe : Prec_lt_emax prec emax) (betas : list (binary_float prec emax)),
+  Forall (in_unit prec emax) betas ->
+  Rabs (sumR prec emax (sticks_fl prec emax Hp Hpe Bone betas) - 1)
+    <= INR (length betas) * (2 * bpow radix2 (- prec) + 3 * (/ 2 * bpow radix2 (3 - emax - prec))).
+Proof. exact dirichlet_sum_fl. Qed.
+
+(* one step of the loop: out + acc' - acc *)
+Theorem C11_stick_step : forall prec emax (Hp : Prec_gt_0 prec) (Hpe : Prec_lt_emax prec emax) (acc b : binary_float prec emax),
+  in_unit prec emax acc -> in_unit prec emax b ->
+  Rabs (B2R (Bmult mode_NE acc b) + B2R (Bmult mode_NE acc (Bminus mode_NE (Bone (prec_gt_0_ := Hp) (prec_lt_emax_ := Hpe)) b)) - B2R acc)
+    <= 2 * bpow radix2 (- prec) + 3 * (/ 2 * bpow radix2 (3 - emax - prec)).
+Proof. exact stick_step. Qed.
+
 Print Assumptions C11_sticks_fl_def.
 Print Assumptions C11_in_unit_def.
 Print Assumptions C11_dirichlet_sticks_fl.
+Print Assumptions C11_sumR_def.
+Print Assumptions C11_dirichlet_sum_fl.
+Print Assumptions C11_stick_step.
